@@ -204,6 +204,126 @@ def _names(node) -> Set[str]:
     return out
 
 
+def _pure(e) -> bool:
+    return isinstance(e, (ast.Name, ast.Constant)) or (isinstance(e, ast.Attribute) and _pure(e.value)) \
+        or (isinstance(e, ast.Tuple) and all(_pure(x) for x in e.elts))
+
+
+def _mentions(stmts, name) -> int:
+    return sum(1 for st in stmts for n in ast.walk(st) if isinstance(n, ast.Name) and n.id == name)
+
+
+def _sub_blocks(st):
+    for fld in ("body", "orelse", "finalbody"):
+        b = getattr(st, fld, None)
+        if isinstance(b, list) and b and isinstance(b[0], ast.stmt):
+            yield fld, b
+    for h in getattr(st, "handlers", []) or []:
+        yield None, h.body
+
+
+def _tidy_inlined(blk, locals_):
+    """tidy the statements an inlined helper left behind, so that the caller reads as it would had the code been written in place:
+      * `a, b = x, y` (the helper's returned tuple meeting the caller's unpacking) becomes `a = x; b = y`;
+      * `_ = <name / attribute / constant>` is dropped;
+      * `t = s`, s a local of the helper that lives only in the statements before the copy (same block) and t not mentioned there:
+        s is renamed to t and the copy dropped (copy coalescing);
+      * `s = None` initialisers of helper locals that are never read, or that are unconditionally re-assigned before any read, go.
+    Everything here is value-preserving on the inlined block; it only touches names the inliner introduced."""
+    def split(block):
+        out = []
+        for st in block:
+            for fld, b in list(_sub_blocks(st)):
+                nb = split(b)
+                if fld is not None:
+                    setattr(st, fld, nb or ([ast.Pass()] if fld == "body" else []))
+                else:
+                    b[:] = nb or [ast.Pass()]
+            if isinstance(st, ast.Assign) and len(st.targets) == 1 and isinstance(st.targets[0], ast.Tuple) and isinstance(st.value, ast.Tuple) \
+                    and len(st.targets[0].elts) == len(st.value.elts) and all(_pure(e) for e in st.value.elts) \
+                    and not any(isinstance(e, ast.Starred) for e in st.targets[0].elts + st.value.elts):
+                tnames = {n.id for t in st.targets[0].elts for n in ast.walk(t) if isinstance(n, ast.Name)}
+                vnames = {n.id for v in st.value.elts for n in ast.walk(v) if isinstance(n, ast.Name)}
+                if not (tnames - {"_"}) & vnames:
+                    for t, v in zip(st.targets[0].elts, st.value.elts):
+                        out.append(ast.copy_location(ast.Assign(targets=[t], value=v), st))
+                    continue
+            out.append(st)
+        return out
+
+    blk = split(blk)
+
+    def drop_underscore(block):
+        out = []
+        for st in block:
+            for fld, b in list(_sub_blocks(st)):
+                nb = drop_underscore(b)
+                if fld is not None:
+                    setattr(st, fld, nb or ([ast.Pass()] if fld == "body" else []))
+                else:
+                    b[:] = nb or [ast.Pass()]
+            if isinstance(st, ast.Assign) and len(st.targets) == 1 and isinstance(st.targets[0], ast.Name) and st.targets[0].id == "_" and _pure(st.value):
+                continue
+            out.append(st)
+        return out
+
+    blk = drop_underscore(blk)
+
+    def coalesce(block):
+        changed = True
+        while changed:
+            changed = False
+            for k, st in enumerate(block):
+                if isinstance(st, ast.Assign) and len(st.targets) == 1 and isinstance(st.targets[0], ast.Name) and isinstance(st.value, ast.Name) \
+                        and st.value.id in locals_ and st.targets[0].id != st.value.id:
+                    s_, t_ = st.value.id, st.targets[0].id
+                    before = block[:k]
+                    if _mentions(before, t_) == 0 and _mentions(before, s_) == _mentions(blk, s_) - 1 and _mentions(before, s_) > 0:
+                        for b in before:
+                            for n in ast.walk(b):
+                                if isinstance(n, ast.Name) and n.id == s_:
+                                    n.id = t_
+                        del block[k]
+                        changed = True
+                        break
+        for st in block:
+            for _fld, b in _sub_blocks(st):
+                coalesce(b)
+
+    coalesce(blk)
+
+    def linear(block):
+        for st in block:
+            yield st
+            if isinstance(st, ast.With):
+                yield from linear(st.body)
+
+    def dead_inits(block):
+        k = 0
+        while k < len(block):
+            st = block[k]
+            if isinstance(st, ast.Assign) and len(st.targets) == 1 and isinstance(st.targets[0], ast.Name) and isinstance(st.value, ast.Constant) \
+                    and st.value.value is None:
+                nm = st.targets[0].id
+                if _mentions(blk, nm) == 1 and nm in locals_:
+                    del block[k]
+                    continue
+                nxt = next((x for x in linear(block[k + 1:]) if not isinstance(x, ast.With) and _mentions([x], nm)
+                            or isinstance(x, ast.With) and any(_mentions([wi.context_expr], nm) for wi in x.items)), None)
+                if nxt is not None and isinstance(nxt, ast.Assign) and not _mentions([nxt.value], nm) \
+                        and any(isinstance(n, ast.Name) and n.id == nm for t in nxt.targets for n in ([t] if isinstance(t, ast.Name) else getattr(t, "elts", []))) \
+                        and (nm in locals_ or _mentions(block[:k], nm) == 0):
+                    del block[k]
+                    continue
+            k += 1
+        for st in block:
+            for _fld, b in _sub_blocks(st):
+                dead_inits(b)
+
+    dead_inits(blk)
+    return blk or [ast.Pass()]
+
+
 class Inliner:
     def __init__(self, tree: ast.Module, known: Set[str]):
         self.tree = tree
@@ -271,9 +391,10 @@ class Inliner:
         body = [_FoldIfExp().visit(sub.visit(copy.deepcopy(st))) for st in _body_without_doc(fn)]
         body = _fold_constant_tests(body)
         has_ret = any(isinstance(n, ast.Return) for st in body for n in ast.walk(st))
+        locals_ = set(rename.values()) | (_stores(fn) - set(binding) - set(rename))
         if has_ret:
             body = _eliminate_returns(body, target_stmt_builder)
-            return pre + body
+            return pre + _tidy_inlined(body, locals_)
         return pre + body + [target_stmt_builder(ast.Constant(value=None))]
 
     def run(self):
